@@ -288,6 +288,46 @@ func (node *Node) ProcessBlock(ctx context.Context, block wire.Block) error {
 			inMemPool = node.memPool.RemoveTransaction(*txid)
 		}
 
+		// Check for other transactions in the mempool with conflicting inputs (double spends). Now that
+		// this tx is confirmed they can't confirm, so they are removed from the mempool.
+		isSafe := true
+		if conflicting := node.memPool.Conflicting(tx); len(conflicting) > 0 {
+			isSafe = false
+			for _, confHash := range conflicting {
+				if !containsHash(confHash, unconfirmed) {
+					continue // Only send for txs that previously matched filters.
+				}
+
+				// Mark cancelled
+				confState, err := handlersstorage.FetchTxState(ctx, node.store, confHash)
+				if err != nil {
+					if errors.Cause(err) == storage.ErrNotFound {
+						continue
+					}
+					node.txs.ReleaseUnconfirmed(ctx)
+					return errors.Wrap(err, "fetch tx state")
+				}
+
+				confState.State.Safe = false
+				confState.State.UnSafe = true
+				confState.State.Cancelled = true
+
+				if err := handlersstorage.SaveTxState(ctx, node.store, confState); err != nil {
+					node.txs.ReleaseUnconfirmed(ctx)
+					return errors.Wrap(err, "save tx state")
+				}
+
+				// Send update
+				update := &client.TxUpdate{
+					TxID:  confHash,
+					State: confState.State,
+				}
+				for _, handler := range node.handlers {
+					handler.HandleTxUpdate(ctx, update)
+				}
+			}
+		}
+
 		if inUnconfirmed {
 			// Already seen and marked relevant
 			merkleTree.AddMerkleProof(*txid)
@@ -297,43 +337,6 @@ func (node *Node) ProcessBlock(ctx context.Context, block wire.Block) error {
 
 		} else if !inMemPool {
 			// Not seen yet
-			isSafe := true
-
-			// Transaction wasn't in the mempool.
-			// Check for transactions in the mempool with conflicting inputs (double spends).
-			if conflicting := node.memPool.Conflicting(tx); len(conflicting) > 0 {
-				isSafe = false
-				for _, confHash := range conflicting {
-					if containsHash(confHash, unconfirmed) {
-						// Only send for txs that previously matched filters.
-
-						// Mark cancelled
-						txState, err := handlersstorage.FetchTxState(ctx, node.store, *txid)
-						if err != nil {
-							node.txs.ReleaseUnconfirmed(ctx)
-							return errors.Wrap(err, "fetch tx state")
-						}
-
-						txState.State.UnSafe = true
-						txState.State.Cancelled = true
-
-						if err := handlersstorage.SaveTxState(ctx, node.store, txState); err != nil {
-							node.txs.ReleaseUnconfirmed(ctx)
-							return errors.Wrap(err, "save tx state")
-						}
-
-						// Send update
-						update := &client.TxUpdate{
-							TxID:  *txid,
-							State: txState.State,
-						}
-						for _, handler := range node.handlers {
-							handler.HandleTxUpdate(ctx, update)
-						}
-					}
-				}
-			}
-
 			if node.IsRelevant(ctx, tx) {
 				// Add to txs for block
 				if _, _, err := node.txs.Add(ctx, *txid, true, true, height); err != nil {
